@@ -32,15 +32,32 @@ type c16Case struct {
 	// 3 inside io.MultiReader, 4 inside an io.LimitReader that never limits
 	ErrKind int `json:"err_kind,omitempty"`
 	Wrap    int `json:"wrap,omitempty"`
+	// Sample > 0: the subject is repository sample number Sample; the fault positions are then the sampled Positions (the
+	// inputs are a few KB: all positions would be thousands of runs per case)
+	Sample    int   `json:"sample,omitempty"`
+	Positions []int `json:"positions,omitempty"`
 	// OnlyAt restricts the enumeration to one position (used by shrunk replays); -1 = all positions
 	OnlyAt int `json:"only_at"`
 }
 
 func genC16(t *rapid.T) c16Case {
 	c := c16Case{OnlyAt: -1}
-	c.Shape = gen.DrawShape(t, gen.ShapeOpts{AllowReplaceQuotes: true})
-	c.Shape.BOM = rapid.IntRange(0, 5).Draw(t, "bom") == 0
-	c.Recs = gen.DrawRecs(t, c.Shape, "r", 0, 5, gen.ValueOpts{})
+	if rapid.IntRange(0, 9).Draw(t, "sampleArm") == 0 {
+		c.Sample = drawSample(t, "sample")
+	}
+	if c.Sample > 0 {
+		_, in, name, _ := sampleOf(c.Sample)
+		c.Shape = gen.Shape{Format: sampleFormat(name)}
+		for i := 0; i < 24; i++ {
+			// two draws: rapid's integer draws favour the ends of a range
+			p := (rapid.IntRange(0, len(in)).Draw(t, fmt.Sprintf("posA%d", i)) + rapid.IntRange(0, len(in)).Draw(t, fmt.Sprintf("posB%d", i))) % (len(in) + 1)
+			c.Positions = append(c.Positions, p)
+		}
+	} else {
+		c.Shape = gen.DrawShape(t, gen.ShapeOpts{AllowReplaceQuotes: true})
+		c.Shape.BOM = rapid.IntRange(0, 5).Draw(t, "bom") == 0
+		c.Recs = gen.DrawRecs(t, c.Shape, "r", 0, 5, gen.ValueOpts{})
+	}
 	switch rapid.IntRange(0, 2).Draw(t, "sched") {
 	case 0:
 		c.Schedule = run.Schedule{Sizes: []int{1 << 20}}
@@ -97,6 +114,10 @@ func (c c16Case) wrap(r io.Reader) io.Reader {
 }
 
 func (c c16Case) input() []byte {
+	if c.Sample > 0 {
+		_, in, _, _ := sampleOf(c.Sample)
+		return in
+	}
 	in := c.Shape.Render(c.Recs)
 	if c.Shape.BOM {
 		in = append([]byte{0xEF, 0xBB, 0xBF}, in...)
@@ -105,7 +126,17 @@ func (c c16Case) input() []byte {
 }
 
 func checkC16(c c16Case) obs.Result {
-	sch, err := run.NewSchema(c.Shape.Schema())
+	schemaText := ""
+	if c.Sample > 0 {
+		st, _, _, ok := sampleOf(c.Sample)
+		if !ok {
+			return obs.Result{Excluded: "no such sample"}
+		}
+		schemaText = st
+	} else {
+		schemaText = c.Shape.Schema()
+	}
+	sch, err := run.NewSchema(schemaText)
 	if err != nil {
 		return obs.Violationf("generated schema rejected: %v", err)
 	}
@@ -122,6 +153,13 @@ func checkC16(c c16Case) obs.Result {
 		}
 	}
 	classes := []string{"format=" + c.Shape.Format}
+	only := map[int]bool{}
+	if c.Sample > 0 {
+		classes = append(classes, "repo-sample")
+		for _, p := range c.Positions {
+			only[p] = true
+		}
+	}
 	if c.Transient {
 		classes = append(classes, "transient")
 	}
@@ -144,6 +182,9 @@ func checkC16(c c16Case) obs.Result {
 	maskedEOF := 0
 	for p := 0; p <= len(in); p++ {
 		if c.OnlyAt >= 0 && p != c.OnlyAt {
+			continue
+		}
+		if c.Sample > 0 && !only[p] {
 			continue
 		}
 		positions++
